@@ -274,12 +274,38 @@ func (w *world) ldVP(id string, nonceField string, nonce string, domain string) 
 	return string(b)
 }
 
+// dpopHeader is a valid DPoP proof (fresh key, fresh jti) for a request to the token endpoint.
+func (w *world) dpopHeader(method, target string) (string, error) {
+	u, err := url.Parse(target)
+	if err != nil {
+		return "", err
+	}
+	key, err := ecdsa.GenerateKey(elliptic.P256(), rand.Reader)
+	if err != nil {
+		return "", err
+	}
+	return dpop.New(http.Request{Method: method, URL: u}).Sign("kid", key, jwa.ES256)
+}
+
 const submissionJSON = `{"id":"1", "definition_id":"1", "descriptor_map":[{"id":"1","format":"ldp_vc","path":"$.verifiableCredential"}]}`
 
 // seed stores the secret exactly where the handlers look for it (through the real store accessors: real prefix,
 // real TTL, real JSON shape). Returns the prepared requests per actor.
-func (w *world) prepare(kind, secret string, flav, variant map[string]string, objMethod string) (map[string]request, error) {
+//
+// reqCtx[r] != "" puts request r into another context: something that accompanies the value is different although the
+// request, sent on its own, is as acceptable as the original one.
+func (w *world) prepare(kind, secret string, flav, variant, reqCtx map[string]string, objMethod string) (map[string]request, error) {
 	reqs := map[string]request{}
+	// requests in the other context share it: one DPoP header, one other key, one other presentation id
+	dpopHeaders := map[string]string{}
+	dpopHeader := func(method, target string) (string, error) {
+		if h, ok := dpopHeaders[method+" "+target]; ok {
+			return h, nil
+		}
+		h, err := w.dpopHeader(method, target)
+		dpopHeaders[method+" "+target] = h
+		return h, err
+	}
 	okToken := func(rec *httptest.ResponseRecorder) bool {
 		_, ok := jsonHas(rec, http.StatusOK, "access_token")
 		return ok
@@ -313,7 +339,21 @@ func (w *world) prepare(kind, secret string, flav, variant map[string]string, ob
 			default:
 				return nil, fmt.Errorf("code: unknown flavour/variant %s/%s", f, variant[r])
 			}
-			reqs[r] = w.serve(form("https://example.com/oauth2/"+verifierSubject+"/token", vals, nil), okToken)
+			target, hdr := "https://example.com/oauth2/"+verifierSubject+"/token", map[string]string{}
+			switch reqCtx[r] {
+			case "":
+			case "other-tenant": // the token endpoint of another tenant of this node
+				target = "https://example.com/oauth2/" + holderSubject + "/token"
+			case "with-dpop": // the optional DPoP header
+				h, err := dpopHeader(http.MethodPost, target)
+				if err != nil {
+					return nil, err
+				}
+				hdr["DPoP"] = h
+			default:
+				return nil, fmt.Errorf("code: unknown context %q", reqCtx[r])
+			}
+			reqs[r] = w.serve(form(target, vals, hdr), okToken)
 		}
 	case "reqobj":
 		audience := verifierURL // => request_uri_method get
@@ -343,8 +383,16 @@ func (w *world) prepare(kind, secret string, flav, variant map[string]string, ob
 				return nil, fmt.Errorf("reqobj: unknown flavour/variant %s/%s", f, variant[r])
 			}
 			req := httptest.NewRequest(method, "https://example.com/oauth2/"+subject+"/request.jwt/"+secret, nil)
+			body := url.Values{}
+			switch reqCtx[r] {
+			case "":
+			case "wallet-nonce": // optional parameter of request_uri_method=post
+				body.Set("wallet_nonce", "wn-other")
+			default:
+				return nil, fmt.Errorf("reqobj: unknown context %q", reqCtx[r])
+			}
 			if method == http.MethodPost {
-				req = form("https://example.com/oauth2/"+subject+"/request.jwt/"+secret, url.Values{}, nil)
+				req = form("https://example.com/oauth2/"+subject+"/request.jwt/"+secret, body, nil)
 			}
 			reqs[r] = w.serve(req, func(rec *httptest.ResponseRecorder) bool {
 				return rec.Code == http.StatusOK && strings.Contains(rec.Body.String(), "signed.request.object")
@@ -374,15 +422,25 @@ func (w *world) prepare(kind, secret string, flav, variant map[string]string, ob
 			return nil, err
 		}
 		for r, f := range flav {
-			vals := url.Values{"state": {state}, "presentation_submission": {submissionJSON}, "vp_token": {w.ldVP("", "challenge", secret, verifierURL)}}
+			vpID, field := "", "challenge"
+			switch reqCtx[r] {
+			case "":
+			case "nonce-field": // the value travels in the proof's nonce instead of its challenge
+				field = "nonce"
+			case "other-vp": // another presentation document carrying the same value
+				vpID = "urn:verif:presentation:other"
+			default:
+				return nil, fmt.Errorf("vpnonce: unknown context %q", reqCtx[r])
+			}
+			vals := url.Values{"state": {state}, "presentation_submission": {submissionJSON}, "vp_token": {w.ldVP(vpID, field, secret, verifierURL)}}
 			switch f + "/" + variant[r] {
 			case "good/":
 			case "bad/other-state":
 				vals.Set("state", otherState)
 			case "bad/vp-invalid":
-				vals.Set("vp_token", w.ldVP(invalidMarker, "challenge", secret, verifierURL))
+				vals.Set("vp_token", w.ldVP(invalidMarker, field, secret, verifierURL))
 			case "early/two-nonces":
-				vals.Set("vp_token", "["+w.ldVP("", "challenge", secret, verifierURL)+","+w.ldVP("", "challenge", "another-nonce-"+secret+"-x", verifierURL)+"]")
+				vals.Set("vp_token", "["+w.ldVP(vpID, field, secret, verifierURL)+","+w.ldVP("", "challenge", "another-nonce-"+secret+"-x", verifierURL)+"]")
 			default:
 				return nil, fmt.Errorf("vpnonce: unknown flavour/variant %s/%s", f, variant[r])
 			}
@@ -400,6 +458,23 @@ func (w *world) prepare(kind, secret string, flav, variant map[string]string, ob
 			vals := url.Values{"grant_type": {oauth.VpTokenGrantType}, "scope": {scope}, "client_id": {holderClientID},
 				"presentation_submission": {submissionJSON}, "assertion": {w.ldVP("", "nonce", secret, verifierURL)}}
 			hdr := map[string]string{}
+			switch reqCtx[r] {
+			case "":
+			case "other-client": // client_id is not bound to the presentation in this grant
+				vals.Set("client_id", "https://example.com/oauth2/another-client")
+			case "other-scope":
+				vals.Set("scope", scope+"-2")
+			case "with-dpop": // the optional DPoP header
+				h, err := dpopHeader(http.MethodPost, "https://example.com/oauth2/"+verifierSubject+"/token")
+				if err != nil {
+					return nil, err
+				}
+				hdr["DPoP"] = h
+			case "other-vp": // another presentation document carrying the same value
+				vals.Set("assertion", w.ldVP("urn:verif:presentation:other", "nonce", secret, verifierURL))
+			default:
+				return nil, fmt.Errorf("s2snonce: unknown context %q", reqCtx[r])
+			}
 			switch f + "/" + variant[r] {
 			case "good/":
 			case "bad/vp-invalid":
@@ -412,19 +487,32 @@ func (w *world) prepare(kind, secret string, flav, variant map[string]string, ob
 			reqs[r] = w.serve(form("https://example.com/oauth2/"+verifierSubject+"/token", vals, hdr), okToken)
 		}
 	case "dpopjti":
-		const accessToken = "the-access-token"
-		target, _ := url.Parse("https://resource.example.com/fhir/Patient")
-		proof := dpop.New(http.Request{Method: http.MethodGet, URL: target})
-		_ = proof.Token.Set("jti", secret)
-		p2 := proof.GenerateProof(accessToken)
-		raw, err := p2.Sign("kid", w.key, jwa.ES256)
-		if err != nil {
-			return nil, err
-		}
-		tp, _ := p2.Headers.JWK().Thumbprint(crypto.SHA256)
-		body, _ := json.Marshal(map[string]string{"dpop_proof": raw, "method": http.MethodGet, "url": target.String(),
-			"thumbprint": base64.RawURLEncoding.EncodeToString(tp), "token": accessToken})
+		otherKey, _ := ecdsa.GenerateKey(elliptic.P256(), rand.Reader)
 		for r := range flav {
+			// every request validates a proof carrying the jti; in another context it is another proof with the same jti
+			accessToken, target, key := "the-access-token", "https://resource.example.com/fhir/Patient", w.key
+			switch reqCtx[r] {
+			case "":
+			case "other-key":
+				key = otherKey
+			case "other-token":
+				accessToken = "another-access-token"
+			case "other-url":
+				target = "https://resource.example.com/fhir/Observation"
+			default:
+				return nil, fmt.Errorf("dpopjti: unknown context %q", reqCtx[r])
+			}
+			targetURL, _ := url.Parse(target)
+			proof := dpop.New(http.Request{Method: http.MethodGet, URL: targetURL})
+			_ = proof.Token.Set("jti", secret)
+			p2 := proof.GenerateProof(accessToken)
+			raw, err := p2.Sign("kid", key, jwa.ES256)
+			if err != nil {
+				return nil, err
+			}
+			tp, _ := p2.Headers.JWK().Thumbprint(crypto.SHA256)
+			body, _ := json.Marshal(map[string]string{"dpop_proof": raw, "method": http.MethodGet, "url": target,
+				"thumbprint": base64.RawURLEncoding.EncodeToString(tp), "token": accessToken})
 			req := httptest.NewRequest(http.MethodPost, "https://example.com/internal/auth/v2/dpop/validate", strings.NewReader(string(body)))
 			req.Header.Set("Content-Type", "application/json")
 			reqs[r] = w.serve(req, func(rec *httptest.ResponseRecorder) bool {
@@ -450,6 +538,9 @@ func (w *world) prepare(kind, secret string, flav, variant map[string]string, ob
 			return nil, err
 		}
 		for r, f := range flav {
+			if reqCtx[r] != "" {
+				return nil, fmt.Errorf("redirect: unknown context %q", reqCtx[r])
+			}
 			subject := holderSubject
 			switch f + "/" + variant[r] {
 			case "good/":
@@ -472,6 +563,9 @@ func (w *world) prepare(kind, secret string, flav, variant map[string]string, ob
 			return nil, err
 		}
 		for r := range flav {
+			if reqCtx[r] != "" {
+				return nil, fmt.Errorf("preauth: unknown context %q", reqCtx[r])
+			}
 			reqs[r] = request{do: func() (int, bool, string) {
 				token, nonce, err := w.vci.HandleAccessTokenRequest(context.Background(), secret)
 				if err != nil {
